@@ -29,9 +29,112 @@ def run(ctx):
     ctx.add_family(agg)
     agg = run_family("C12metal", F.c12_metal(ctx.tier, rnd), NAMES + ["macroname"], dev=dev, invariants=INVS, perms=(0, 1, 2, 1001), timeout=1800)
     ctx.add_family(agg)
+    nested_render_part(ctx, rnd, quick)
     ctx.exhaustive = True
     ctx.rule = ("programs: subsets of the TAL statements on one element with multi-line text interpolations; every call "
                 "may return normally or raise class c, for each c of 8 classes; TLC enumerates every raising point "
                 "(the first raise ends the render); non-trivial = at least one call evaluated")
     ctx.assumptions += ["message format ' - Expression: \"..\" / - Location: (line L: col C)' is parsed from str(exc)",
                         "macro / load: call-site chains are covered by the METAL families (C09) when present"]
+
+
+# ---------------------------------------------------------------------------------------------------------------------
+# Templates rendered from expressions of other templates (and of themselves): the machine's chain of call sites
+# (exc.sites: innermost to outermost) continued across render() calls.  A plan is a sequence of template indices
+# t0 -> t1 -> ... -> tn: template t_k, rendered at level k, calls t_{k+1} through its call expression; the last one
+# evaluates the failing expression.  The same template may occur several times (recursion through one call site).
+CALL_FORMS = [
+    ('<i tal:condition="level &lt; last"\n     tal:replace="structure: «%s»"/>', "replace"),
+    ('<i tal:condition="level &lt; last" tal:content="structure «%s»">c</i>', "content"),
+    ('<u tal:condition="level &lt; last">\n   ${structure: «%s»}</u>', "interp"),
+]
+CALL_EXPR = "plan[level + 1](plan=plan, level=level + 1, last=last, boom=boom)"
+
+
+def _nested_templates(rnd, n):
+    srcs, marks = [], []
+    for t in range(n):
+        form, _ = rnd.choice(CALL_FORMS)
+        pad = "\n" * rnd.randint(0, 2) + " " * rnd.randint(0, 3)
+        pat = "<div>%s<p>t%d ${level}</p>\n  %s\n <b tal:condition=\"level == last\">%s${«boom()»}</b>\n</div>" % (
+            pad, t, form % CALL_EXPR, " " * rnd.randint(0, 2))
+        src = pat.replace("«", "").replace("»", "")
+        # offsets of the two marked expressions
+        offs = []
+        clean = ""
+        for ch in pat:
+            if ch == "«":
+                offs.append(len(clean))
+            elif ch != "»":
+                clean += ch
+        assert clean == src
+        srcs.append(src)
+        marks.append(dict(call=offs[0], fail=offs[1]))
+    return srcs, marks
+
+
+def _linecol(src, off):
+    return src.count("\n", 0, off) + 1, off - (src.rfind("\n", 0, off) + 1)
+
+
+def nested_render_part(ctx, rnd, quick):
+    import re
+    import sys
+    from harness import REPO_SRC
+    sys.path.insert(0, REPO_SRC)
+    from chameleon import PageTemplate
+    from chameleon.exc import RenderError
+    from .. import concretize as C
+    classes = ["ZeroDivisionError", "KeyError", "Custom2", "RecursionError", "KeyboardInterrupt"]
+    plans = [(0,), (0, 0), (0, 1), (0, 0, 0), (0, 1, 0), (0, 1, 1), (0, 0, 0, 0), (0, 1, 2, 1), (1, 0, 0, 1, 1)]
+    n = bad = 0
+    for rep in range(2 if quick else 12):
+        srcs, marks = _nested_templates(rnd, 3)
+        tmpls = [PageTemplate(s) for s in srcs]
+        for plan in plans:
+            for cname in classes:
+                orig = C.make_exc(cname)
+
+                def boom():
+                    raise orig
+                err = None
+                try:
+                    tmpls[plan[0]](plan=[tmpls[i] for i in plan], level=0, last=len(plan) - 1, boom=boom)
+                except BaseException as e:   # noqa
+                    err = e
+                n += 1
+                why = None
+                want = [("boom()",) + _linecol(srcs[plan[-1]], marks[plan[-1]]["fail"])] + \
+                       [(html_unescape(CALL_EXPR),) + _linecol(srcs[i], marks[i]["call"]) for i in reversed(plan[:-1])]
+                if err is None:
+                    why = "no exception"
+                elif not isinstance(err, type(orig)):
+                    why = "exception class %s, raised was %s" % (type(err).__name__, cname)
+                elif not isinstance(orig, Exception):
+                    if isinstance(err, Exception):
+                        why = "%s turned into an Exception subclass" % cname
+                elif isinstance(orig, RecursionError):
+                    if isinstance(err, RenderError):
+                        why = "RecursionError was wrapped"
+                elif not isinstance(err, RenderError):
+                    why = "not a RenderError"
+                elif tuple(err.args) != tuple(orig.args):
+                    why = "args %r, original %r" % (err.args, orig.args)
+                else:
+                    recs = re.findall(r' - Expression: "(.*?)"\n - Filename:   (.*?)\n - Location:   \(line (\d+): col (\d+)\)', str(err), re.S)
+                    got = [(r[0], int(r[2]), int(r[3])) for r in recs]
+                    if got != want:
+                        why = "the message lists %s; the failing expression and its call sites, innermost to outermost, are %s" % (got, want)
+                if why:
+                    bad += 1
+                    if bad <= 3:
+                        ctx.violation("templates rendered from expressions, plan %s, %s raised at the last level: %s" % (list(plan), cname, why),
+                                      dict(kind="nested-render", sources=srcs, plan=list(plan), exc=cname))
+    ctx.replays += n
+    ctx.nontrivial += n
+    ctx.notes["nested_render_cases"] = n
+
+
+def html_unescape(s):
+    import html
+    return html.unescape(s)
